@@ -166,6 +166,12 @@ func (e *Expr) SQL() string {
 			p[i] = a.SQL()
 		}
 		return "(" + e.Args[0].SQL() + " IN (" + strings.Join(p, ", ") + "))"
+	case "coalesce":
+		p := make([]string, len(e.Args))
+		for i, a := range e.Args {
+			p[i] = a.SQL()
+		}
+		return "COALESCE(" + strings.Join(p, ", ") + ")"
 	}
 	return "(" + e.Args[0].SQL() + " " + e.Op + " " + e.Args[1].SQL() + ")"
 }
@@ -259,6 +265,13 @@ func (e *Expr) Eval(env Env) V {
 			return Int(-a.I)
 		case KFloat:
 			return Float(-a.F)
+		}
+		return Null
+	case "coalesce":
+		for _, x := range e.Args {
+			if v := x.Eval(env); !v.IsNull() {
+				return v
+			}
 		}
 		return Null
 	case "in":
